@@ -69,8 +69,10 @@ def _setter_wrapper(
     @functools.wraps(original_setter)
     def wrapper(self: _SelfT, value: _ValueT) -> None:
         old_value = getattr(self, property_name)
-        journal.record(self, operation, details=f"{old_value!r} -> {value!r}")
+        details = f"{old_value!r} -> {value!r}"
         original_setter(self, value)
+        # Record only operations that completed (a rejected assignment leaves no entry)
+        journal.record(self, operation, details=details)
 
     return wrapper
 
@@ -93,8 +95,12 @@ def _method_wrapper(
 
     @functools.wraps(original_method)
     def wrapper(self: _SelfT, *args: _P.args, **kwargs: _P.kwargs) -> _T:
-        journal.record(self, operation, details=details_func(self, *args, **kwargs))
-        return original_method(self, *args, **kwargs)
+        # The details describe the state before the call; the entry is recorded only when the
+        # operation completed (a call that raises leaves no entry)
+        details = details_func(self, *args, **kwargs)
+        result = original_method(self, *args, **kwargs)
+        journal.record(self, operation, details=details)
+        return result
 
     return wrapper
 
@@ -120,8 +126,10 @@ def _container_method_wrapper(
     @functools.wraps(original_method)
     def wrapper(self: _SelfT, *args: _P.args, **kwargs: _P.kwargs) -> _T:
         target = getattr(self, target_attr)
-        journal.record(target, operation, details=details_func(self, *args, **kwargs))
-        return original_method(self, *args, **kwargs)
+        details = details_func(self, *args, **kwargs)
+        result = original_method(self, *args, **kwargs)
+        journal.record(target, operation, details=details)
+        return result
 
     return wrapper
 
